@@ -211,4 +211,75 @@ pub(crate) mod kani_verif {
     fn c12_cksm_n16_w8() {
         check_cksm::<Sha256_128, 16>(8);
     }
+
+    // ------------------------------------------------------------------ C15: cost evaluation of a candidate digest
+    /// fast_verify_eval(Q) == sum_{i<p} coef(Q || Cksm(Q), i, w)  (the number of chain steps the signer performs)
+    #[cfg(feature = "fast_verify")]
+    fn check_eval<H: HashChain, const N: usize>(w: u8) {
+        let p = alg(w).construct_parameter::<H>().unwrap();
+        let q: [u8; N] = kani::any();
+        let cached = p.fast_verify_eval_init();
+        let r = p.fast_verify_eval(&q, &cached);
+        let mut qc = [0u8; 34];
+        qc[..N].copy_from_slice(&q);
+        let ck = spec_cksm(&q, N as u32, w as u32, p.get_checksum_left_shift() as u32);
+        qc[N] = (ck >> 8) as u8;
+        qc[N + 1] = (ck & 0xff) as u8;
+        let mut total = 0u32;
+        let mut i = 0;
+        while i < p.get_num_winternitz_chains() as u32 {
+            total += spec_coef(&qc, i, w as u32);
+            i += 1;
+        }
+        assert!(r as u32 == total, "fast_verify_eval == sum of all p digits of Q || Cksm(Q)");
+        kani::cover!(total > 0, "reachable");
+    }
+    // @h props=C15 tier=quick kind=proved cfg=fastverify timeout=1800 funcs=LmotsParameter::fast_verify_eval;LmotsParameter::fast_verify_eval_init;coef_helper contract="fast_verify_eval(Q) == sum of the p digits of Q||Cksm(Q) for every 32-byte digest, w=8"
+    #[cfg(feature = "fast_verify")]
+    #[kani::proof]
+    #[kani::stub(<[u8; 32] as tinyvec::Array>::default, fast_default)]
+    #[kani::unwind(36)]
+    fn c15_eval_n32_w8() {
+        check_eval::<Sha256_256, 32>(8);
+    }
+    // @h props=C15 tier=quick kind=proved cfg=fastverify timeout=1800 funcs=LmotsParameter::fast_verify_eval;LmotsParameter::fast_verify_eval_init;coef_helper contract="fast_verify_eval(Q) == sum of the p digits of Q||Cksm(Q) for every 32-byte digest, w=4"
+    #[cfg(feature = "fast_verify")]
+    #[kani::proof]
+    #[kani::stub(<[u8; 32] as tinyvec::Array>::default, fast_default)]
+    #[kani::unwind(68)]
+    fn c15_eval_n32_w4() {
+        check_eval::<Sha256_256, 32>(4);
+    }
+    // @h props=C15 tier=quick kind=proved cfg=fastverify timeout=1800 funcs=LmotsParameter::fast_verify_eval;LmotsParameter::fast_verify_eval_init;coef_helper contract="fast_verify_eval(Q) == sum of the p digits of Q||Cksm(Q) for every 24-byte digest, w=8"
+    #[cfg(feature = "fast_verify")]
+    #[kani::proof]
+    #[kani::stub(<[u8; 32] as tinyvec::Array>::default, fast_default)]
+    #[kani::unwind(28)]
+    fn c15_eval_n24_w8() {
+        check_eval::<Sha256_192, 24>(8);
+    }
+    // @h props=C15 tier=quick kind=proved cfg=fastverify timeout=1800 funcs=LmotsParameter::fast_verify_eval;LmotsParameter::fast_verify_eval_init;coef_helper contract="fast_verify_eval(Q) == sum of the p digits of Q||Cksm(Q) for every 24-byte digest, w=4"
+    #[cfg(feature = "fast_verify")]
+    #[kani::proof]
+    #[kani::stub(<[u8; 32] as tinyvec::Array>::default, fast_default)]
+    #[kani::unwind(52)]
+    fn c15_eval_n24_w4() {
+        check_eval::<Sha256_192, 24>(4);
+    }
+    // @h props=C15 tier=quick kind=proved cfg=fastverify timeout=1800 funcs=LmotsParameter::fast_verify_eval;LmotsParameter::fast_verify_eval_init;coef_helper contract="fast_verify_eval(Q) == sum of the p digits of Q||Cksm(Q) for every 16-byte digest, w=8"
+    #[cfg(feature = "fast_verify")]
+    #[kani::proof]
+    #[kani::stub(<[u8; 32] as tinyvec::Array>::default, fast_default)]
+    #[kani::unwind(20)]
+    fn c15_eval_n16_w8() {
+        check_eval::<Sha256_128, 16>(8);
+    }
+    // @h props=C15 tier=quick kind=proved cfg=fastverify timeout=1800 funcs=LmotsParameter::fast_verify_eval;LmotsParameter::fast_verify_eval_init;coef_helper contract="fast_verify_eval(Q) == sum of the p digits of Q||Cksm(Q) for every 16-byte digest, w=4"
+    #[cfg(feature = "fast_verify")]
+    #[kani::proof]
+    #[kani::stub(<[u8; 32] as tinyvec::Array>::default, fast_default)]
+    #[kani::unwind(36)]
+    fn c15_eval_n16_w4() {
+        check_eval::<Sha256_128, 16>(4);
+    }
 }
